@@ -42,6 +42,10 @@ pub enum Op {
     HighLevel(usize),
     /// Result-returning deserialisation straight into locked memory (format/type selector, payload length index)
     Deserialize(usize, usize),
+    /// drop the region while a panic is unwinding (inside catch_unwind)
+    DropUnwinding(usize),
+    /// Result-returning wrapper constructors built on protected memory (key pairs, precomputed keys)
+    Wrapper(usize),
 }
 
 #[derive(Debug, Clone, Copy, PartialEq, Eq, Serialize, Deserialize)]
@@ -707,6 +711,40 @@ impl<A: Container> Exec<A> {
                     self.expected_release_nonplain = true;
                 }
                 caught("drop", move || drop(r))?;
+            }
+            Op::DropUnwinding(k) => {
+                let Some(i) = pick(*k) else { return Ok(()) };
+                let r = std::mem::replace(&mut self.regs[i].0, Reg::Gone);
+                let res = std::panic::catch_unwind(std::panic::AssertUnwindSafe(move || {
+                    let _held = r;
+                    panic!("deliberate unwind while a protected region is alive");
+                }));
+                if res.is_ok() {
+                    return Err(format!("{step}: harness: the deliberate panic did not unwind"));
+                }
+            }
+            Op::Wrapper(sel) => {
+                let live_before = !live.is_empty();
+                let before_refused = MLOCK_REFUSED.load(Ordering::SeqCst);
+                let r: Result<(), String> = match sel % 7 {
+                    0 => caught("KeyPair::new_locked_keypair", || dryoc::keypair::KeyPair::new_locked_keypair().map(|_| ()).map_err(es))?,
+                    1 => caught("KeyPair::gen_locked_keypair", || dryoc::keypair::KeyPair::gen_locked_keypair().map(|_| ()).map_err(es))?,
+                    2 => caught("KeyPair::gen_readonly_locked_keypair", || dryoc::keypair::KeyPair::gen_readonly_locked_keypair().map(|_| ()).map_err(es))?,
+                    3 => caught("SigningKeyPair::gen_locked_keypair", || dryoc::sign::SigningKeyPair::gen_locked_keypair().map(|_| ()).map_err(es))?,
+                    4 => caught("SigningKeyPair::gen_readonly_locked_keypair", || dryoc::sign::SigningKeyPair::gen_readonly_locked_keypair().map(|_| ()).map_err(es))?,
+                    5 => caught("PrecalcSecretKey::precalculate_locked", || dryoc::precalc::PrecalcSecretKey::precalculate_locked(&[9u8; 32], &[7u8; 32]).map(|_| ()).map_err(es))?,
+                    _ => caught("PrecalcSecretKey::precalculate_readonly_locked", || dryoc::precalc::PrecalcSecretKey::precalculate_readonly_locked(&[9u8; 32], &[7u8; 32]).map(|_| ()).map_err(es))?,
+                };
+                if let Err(e) = r {
+                    if MLOCK_REFUSED.load(Ordering::SeqCst) > before_refused {
+                        self.stats.err_transitions += 1;
+                        if live_before {
+                            self.stats.fault_reached_with_live_regions = true;
+                        }
+                    } else {
+                        return Err(format!("{step}: wrapper constructor failed without any injected fault: {e}"));
+                    }
+                }
             }
             Op::HighLevel(which) => {
                 if matches!(self.mode, Mode::C15) {
